@@ -23,7 +23,8 @@ ASSUMPTIONS = [
 ]
 REQUIRED = ['sched_stop_runs_to_completion_at_a_loop_preemption_point', 'stop_in_started', 'stop_mid_chain', 'stop_in_generator_step', 'stop_via_systemexit', 'stop_via_keyboardinterrupt',
             'stop_from_second_thread', 'exit_code_given', 'events_fired_after_stop', 'stopped_handler_fires', 'queued_before_run',
-            'second_cycle', 'stop_when_not_running', 'stop_of_registered_child_while_root_runs', 'systemexit_while_not_running']
+            'second_cycle', 'stop_when_not_running', 'stop_of_registered_child_while_root_runs', 'systemexit_while_not_running',
+            'several_exits_in_one_run', 'codeless_exit_next_to_a_coded_one']
 REQUIRED_OBLIGATIONS = ['STARTED_ONCE', 'STOPPED_ONCE', 'DRAINED', 'EXIT_CODE', 'RUN_ENDS', 'STOP_NOT_RUNNING_NOOP']
 WORKER_TIMEOUT = {'quick': 300, 'thorough': 1500}
 ENGINE = 'stepping-driver'
@@ -148,6 +149,7 @@ def run_case(case):
         # what was given
         given = None
         stop_seen = False
+        codes = [e[3] for e in seg if e[0] in ('STOPCALL', 'SYSEXIT') and e[3] is not None]
         for e in seg:
             if e[0] == 'STOPCALL' and not stop_seen:
                 stop_seen, given = True, e[3]
@@ -161,6 +163,18 @@ def run_case(case):
                 marks.add('stop_via_keyboardinterrupt')
             elif e[0] == 'THREADSTOP' and not stop_seen:
                 stop_seen = True
+        n_exits = sum(1 for e in seg if e[0] in ('STOPCALL', 'SYSEXIT'))
+        if n_exits >= 2:
+            # several exits in one run (programs give at most one code): the code that was given is what the caller gets, wherever the
+            # code-less exits come
+            marks.add('several_exits_in_one_run')
+            first = next(e for e in seg if e[0] in ('STOPCALL', 'SYSEXIT'))
+            if first[3] is None and codes:
+                given = 'n/a'      # a code offered after the manager had already been stopped: stop(code) has no effect then - not asserted
+            else:
+                given = codes[0] if codes else None
+            if codes and any(e[0] in ('STOPCALL', 'SYSEXIT') and e[3] is None for e in seg):
+                marks.add('codeless_exit_next_to_a_coded_one')
         if given is not None:
             marks.add('exit_code_given')
         detail0 = {'cycle': cyc, 'given_code': given, 'run_raised': repr(raised) if raised is not None else None}
@@ -191,9 +205,9 @@ def run_case(case):
                 if e[4] != e[5] or e[6] is not None:
                     problems.append(('STOP_NOT_RUNNING_NOOP', dict(detail0, when='stop(%r) of a registered component from a handler while its root runs' % (e[3],),
                                                                    root_running_queue_child_running_before=e[4], after=e[5], raised=e[6])))
-        counts['EXIT_CODE'] += 1
+        counts['EXIT_CODE'] += 0 if given == 'n/a' else 1
         observed = raised.code if isinstance(raised, SystemExit) else ('EXC:' + repr(raised) if raised is not None else None)
-        if observed != given:
+        if observed != given and given != 'n/a':
             problems.append(('EXIT_CODE', dict(detail0, observed_code=observed)))
         # coverage of "consequences of stopping"
         stop_idx = next((i for i, e in enumerate(seg) if e[0] in ('STOPCALL', 'SYSEXIT', 'KBINT', 'THREADSTOP')), None)
@@ -270,6 +284,24 @@ def corpus():
         cs.append({'name': 'childstop-%r-before-stop' % (code,), 'handlers': chain(1, ['stopmgr', None], 2, childstop=[(0, code)]), 'cycles': [{'pre_fires': [E('x')]}, {}]})
         cs.append({'name': 'childstop-%r-in-started-and-gen' % (code,), 'handlers': chain(1, ['stopmgr', 3], 1, gen_stop=True, childstop=[(-1, code), (1, code)]), 'cycles': [{}, {}]})
         cs.append({'name': 'childstop-%r-after-stop' % (code,), 'handlers': chain(1, ['stopmgr', None], 0, childstop=[(2, code)]), 'cycles': [{}]})
+    # a second, code-less exit later in the same run (in `stopped`, later in the chain, in a generator step) next to the one that gives a code
+    for first in (['stopmgr', 3], ['sysexit', 7], ['sysexit', 'fatal']):
+        for gen_stop in (False, True):
+            hs = chain(1, first, 1, gen_stop=gen_stop)
+            for h in hs:
+                if h['name'] == 'stopped':
+                    h['body'] = h['body'] + [['sysexit', None]]
+            cs.append({'name': 'coded-then-bare-exit-in-stopped-%r-%s' % (first[1], gen_stop), 'handlers': hs, 'cycles': [{}, {'pre_fires': [E('x')]}]})
+            hs = chain(1, first, 0, gen_stop=gen_stop)
+            for h in hs:
+                if h['name'] == 'a2':
+                    h['body'] = h['body'] + [['sysexit', None]]
+            cs.append({'name': 'coded-then-bare-exit-in-chain-%r-%s' % (first[1], gen_stop), 'handlers': hs, 'cycles': [{}, {}]})
+    hs = chain(1, ['sysexit', None], 0)
+    for h in hs:
+        if h['name'] == 'stopped':
+            h['body'] = h['body'] + [['sysexit', 9]]
+    cs.append({'name': 'bare-then-coded-exit', 'handlers': hs, 'cycles': [{}, {}]})
     for code in (5, 'early'):
         cs.append({'name': 'sysexit-while-not-running-%r' % (code,), 'handlers': chain(1, ['stopmgr', None], 1) + [HD(90, 'presys', [['fire', E('x')], ['sysexit', code]])],
                    'cycles': [{'pre_sysexit': code}, {}, {'pre_sysexit': code, 'pre_fires': [E('x')]}]})
@@ -307,6 +339,13 @@ def gen_case(rng):
         if kind == 'thread':
             c['thread_stop'] = True
         cycles.append(c)
+    if kind in ('stopmgr', 'sysexit') and rng.random() < 0.3:
+        # one more exit without a code, somewhere else (the program gives at most one code)
+        # (after the coded one: in `stopped`, or in a chain handler behind the stop position)
+        later = [h for h in hs if h['name'] == 'stopped' or (h['name'].startswith('a') and h['name'][1:].isdigit() and int(h['name'][1:]) > where and not h['gen'])]
+        if later:
+            tgt = rng.choice(later)
+            tgt['body'] = tgt['body'] + [['sysexit', None]]
     if rng.random() < 0.2:
         pcode = rng.choice([0, 5, 'early'])
         hs.append(HD(90, 'presys', [['fire', E('x')]] * rng.randint(0, 1) + [['sysexit', pcode]]))
